@@ -1816,3 +1816,116 @@ pub fn cycle_debug() {
         println!("rep {} len={} nsect={} free_fat_cells={} root_len={} mini_stream_chain={} minifat_chain={} dir_secs={}", rep, b.len(), p.nsect, free, root_len, ms_chain, mf_chain, p.dir_secs.len());
     }
 }
+
+// ---------------------------------------------------------------------------
+// C13: "a successful flush means durable" — a fault inside the write-back itself
+// ---------------------------------------------------------------------------
+/// The file is consistent (everything before ran without faults).  One handle writes, then
+/// flush() runs with a fault at its k-th raw write / seek / flush call, for every k; the fault is
+/// removed and flush() is retried.  If the retry returns Ok, the bytes alone — reopened — must
+/// hold the stream with exactly the accepted content.
+pub fn flush_durability(shard: u64, nshards: u64) -> Report {
+    let mut rep = Report::new();
+    // (label, existing content, seek to end?, bytes to write)
+    let scenarios: Vec<(&str, usize, bool, usize)> = vec![
+        ("first write of a new small stream", 0, false, 300),
+        ("first write of a new large stream", 0, false, 6000),
+        ("append to a small stream", 100, true, 200),
+        ("append to a large stream", 5000, true, 3000),
+        ("append that migrates a small stream", 4000, true, 500),
+        ("overwrite inside a large stream", 9000, false, 1000),
+        ("overwrite inside a small stream", 2000, false, 500),
+    ];
+    let mut idx = 0u64;
+    for v in [Version::V3, Version::V4] {
+        for (label, existing, at_end, nwrite) in scenarios.iter() {
+            for with_other in [false, true] {
+                // count the raw calls of a fault-free flush first
+                let run = |fail_at: Option<u64>| -> (u64, Option<String>) {
+                    let buf = SharedBuf::new(Vec::new());
+                    let mut c = CompoundFile::create_with_version(v, buf.clone()).unwrap();
+                    if with_other {
+                        // another small stream, so that the MiniFAT and the mini stream already exist
+                        c.create_stream("/other").unwrap().write_all(&[8u8; 150]).unwrap();
+                    }
+                    let mut expected: Vec<u8> = (0..*existing).map(|i| (i % 251) as u8 | 1).collect();
+                    {
+                        let mut s = c.create_stream("/s").unwrap();
+                        s.write_all(&expected).unwrap();
+                        s.flush().unwrap();
+                    }
+                    let mut s = c.open_stream("/s").unwrap();
+                    if *at_end {
+                        s.seek(SeekFrom::End(0)).unwrap();
+                    }
+                    let data: Vec<u8> = (0..*nwrite).map(|i| 0x80 | (i % 120) as u8).collect();
+                    let pos = s.stream_position().unwrap() as usize;
+                    s.write_all(&data).unwrap();
+                    if expected.len() < pos + data.len() {
+                        expected.resize(pos + data.len(), 0);
+                    }
+                    expected[pos..pos + data.len()].copy_from_slice(&data);
+                    {
+                        let mut ctl = buf.ctl.lock().unwrap();
+                        ctl.fail_kinds = [false, true, true, true];
+                        ctl.seq = 0;
+                        ctl.fail_at = fail_at.into_iter().collect();
+                    }
+                    let first = s.flush();
+                    let n = buf.ctl.lock().unwrap().seq;
+                    buf.ctl.lock().unwrap().fail_at.clear();
+                    let mut ok = first.is_ok();
+                    if !ok {
+                        for _ in 0..3 {
+                            if s.flush().is_ok() {
+                                ok = true;
+                                break;
+                            }
+                        }
+                    }
+                    if !ok {
+                        return (n, None); // the retry is allowed to keep failing
+                    }
+                    let snap = buf.snapshot();
+                    let problem = match CompoundFile::open(std::io::Cursor::new(snap)) {
+                        Err(e) => Some(format!("the bytes no longer reopen: {}", e)),
+                        Ok(mut c2) => match c2.open_stream("/s") {
+                            Err(e) => Some(format!("the reopened file does not have the stream: {}", e)),
+                            Ok(mut fh) => {
+                                let mut got = Vec::new();
+                                match fh.read_to_end(&mut got) {
+                                    Err(e) => Some(format!("the reopened stream cannot be read: {}", e)),
+                                    Ok(_) if got != expected => {
+                                        let d = got.iter().zip(expected.iter()).position(|(a, b)| a != b);
+                                        Some(format!("the reopened stream holds {} bytes (expected {}), first difference at {:?}", got.len(), expected.len(), d))
+                                    }
+                                    Ok(_) => None,
+                                }
+                            }
+                        },
+                    };
+                    (n, problem)
+                };
+                let (n, p0) = run(None);
+                if let Some(p) = p0 {
+                    rep.fail(format!("flushdur {:?} {} other={} without faults: {}", v, label, with_other, p));
+                }
+                for k in 0..n {
+                    idx += 1;
+                    if idx % nshards != shard {
+                        continue;
+                    }
+                    rep.evaluations += 1;
+                    rep.distinct.insert(format!("{:?}-{}-{}-{}", v, label, with_other, k));
+                    match catch_unwind(AssertUnwindSafe(|| run(Some(k)))) {
+                        Ok((_, Some(p))) => rep.fail(format!("flushdur {:?} {} other={} fault at raw call {} of flush(), retry returned Ok: {}", v, label, with_other, k, p)),
+                        Ok((_, None)) => {}
+                        Err(_) => rep.fail(format!("flushdur {:?} {} other={} fault at raw call {} of flush(): PANIC", v, label, with_other, k)),
+                    }
+                }
+            }
+        }
+    }
+    rep.samples.push("consistent file; one handle writes; flush() with a fault at each of its raw write/seek/flush calls; retry; if Ok the reopened bytes must hold the content".into());
+    rep
+}
